@@ -1,4 +1,4 @@
 From Coq Require Import List NArith ZArith ExtrOcamlBasic.
 From WV Require Import Lib.PyBytes Lib.Regex Spec.Grammar Spec.Ref9112.
-Extraction "model.ml" ref_run_dev ref_run delivered_view first_expects ref_chunked framing_of head_fields combined
+Extraction "model.ml" ref_run_dev ref_run delivered_view ref_chunked framing_of head_fields combined
   close_after_of no_devs N.add N.mul.
